@@ -10,6 +10,7 @@ use crate::uci::Flounder;
 use crate::zobrist::ZobristTable;
 
 pub struct ImplState {
+    pub searcher: crate::search::Searcher,
     pub mg: crate::move_gen::MoveGenerator,
     pub tt: TranspositionTable,
     pub evaluator: Evaluator,
@@ -42,9 +43,52 @@ pub fn zobrist_keys_text(z: &ZobristTable) -> String {
     v.join(" ")
 }
 
+pub fn keys_from_tokens(t: &[&str]) -> Option<ZobristTable> {
+    let v: Vec<u64> = t.iter().filter_map(|x| x.parse().ok()).collect();
+    if v.len() != 837 { return None; }
+    let mut pk = [[[0u64; 64]; 6]; 2];
+    let mut i = 0;
+    for c in 0..2 { for p in 0..6 { for sq in 0..64 { pk[c][p][sq] = v[i]; i += 1; } } }
+    let w = v[i]; i += 1;
+    let mut ck = [[0u64; 2]; 2];
+    for c in 0..2 { for sd in 0..2 { ck[c][sd] = v[i]; i += 1; } }
+    let mut ek = [0u64; 64];
+    for sq in 0..64 { ek[sq] = v[i]; i += 1; }
+    Some(ZobristTable::verif_from_keys(pk, w, ck, ek))
+}
+
+/// order-independent digest of the transposition table (same formula as Driver/Main.lean `ttDigest`)
+pub fn tt_digest(entries: &[(u64, crate::transposition::Entry)]) -> String {
+    let mut sum: u64 = 0;
+    for (k, e) in entries {
+        let mv = match e.best_move {
+            None => 0u64,
+            Some(m) => (m.from as u64) * 64 + (m.to as u64) + 4096 * (m.piece_type.index() as u64)
+                + 32768 * (match m.move_type { crate::moves::MoveType::Quiet => 0, crate::moves::MoveType::Capture => 1, crate::moves::MoveType::EnPassant => 2, crate::moves::MoveType::Castle => 3, crate::moves::MoveType::Promotion => 4 }) + 1,
+        };
+        let b = match e.bounds { crate::transposition::Bounds::Exact => 1u64, crate::transposition::Bounds::Lower => 2, crate::transposition::Bounds::Upper => 3 };
+        let ev = (e.eval as i64 + 4294967296i64) as u64;
+        let term = k.wrapping_mul(31).wrapping_add(e.hash_key.wrapping_mul(17)).wrapping_add(ev.wrapping_mul(1000003))
+            .wrapping_add(mv.wrapping_mul(7919)).wrapping_add((e.depth as u64).wrapping_mul(104729)).wrapping_add(b.wrapping_mul(1299709));
+        sum = sum.wrapping_add(term);
+    }
+    format!("{} {}", entries.len(), sum)
+}
+
+pub fn clamp_class(v: i32) -> i32 { if v >= 32767 { 32767 } else if v <= -32767 { -32767 } else { v } }
+
 impl ImplState {
     pub fn new() -> Self {
-        ImplState { mg: crate::move_gen::MoveGenerator::new(), tt: TranspositionTable::new(), evaluator: Evaluator::new(), zobrist: ZobristTable::new(), uci: Flounder::new() }
+        ImplState { searcher: crate::search::Searcher::new(), mg: crate::move_gen::MoveGenerator::new(), tt: TranspositionTable::new(), evaluator: Evaluator::new(), zobrist: ZobristTable::new(), uci: Flounder::new() }
+    }
+
+    /// completed search of `b` to depth `d` on a FRESH searcher that uses the current keys
+    pub fn fresh_search(&mut self, b: &Board, d: u8) -> (i32, Option<crate::moves::Move>, u64) {
+        let (pk, w, ck, ek) = self.searcher.verif_zobrist().verif_keys();
+        let mut s = crate::search::Searcher::new();
+        s.verif_set_zobrist(ZobristTable::verif_from_keys(pk, w, ck, ek));
+        let (score, mv) = s.find_best_move(b, d, None);
+        (score, mv, s.verif_deeper_hits.get())
     }
 
     pub fn apply(&mut self, line: &str) -> String {
@@ -154,6 +198,95 @@ impl ImplState {
             },
             "zob.hash" if t.len() == 2 => match parse_board(t[1]) {
                 Some(b) => self.zobrist.hash(&b).to_string(),
+                None => "bad-op".into(),
+            },
+            // ------------------------------------------------------------ search
+            "s.new" if t.len() == 838 => match keys_from_tokens(&t[1..]) {
+                Some(z) => { self.searcher = crate::search::Searcher::new(); self.searcher.verif_set_zobrist(z); "ok".into() }
+                None => "bad-op".into(),
+            },
+            "s.go" if t.len() == 4 => match (parse_board(t[1]), t[2].parse::<u8>()) {
+                (Some(b), Ok(d)) => {
+                    let (nl, pl, timed) = if t[3] == "none" { (None, None, false) }
+                        else if let Some(n) = t[3].strip_prefix("nodes:") { (n.parse::<u64>().ok(), None, true) }
+                        else if let Some(n) = t[3].strip_prefix("polls:") { (None, n.parse::<u64>().ok(), true) }
+                        else { return "bad-op".into() };
+                    self.searcher.verif_set_node_limit(nl);
+                    self.searcher.verif_set_poll_limit(pl);
+                    self.searcher.verif_deeper_hits.set(0);
+                    self.searcher.verif_same_depth_hits.set(0);
+                    let (score, mv) = self.searcher.find_best_move(&b, d, if timed { Some(std::time::Duration::from_secs(86400)) } else { None });
+                    let tm = self.searcher.verif_timer();
+                    let (nodes, polls, after) = (tm.nodes(), tm.verif_polls.get(), tm.verif_nodes_after_stop);
+                    let r = format!("{} {} nodes={} polls={} deeper={} same={} afterstop={} rep={} tt={}", score, opt_mv_text(&mv), nodes, polls,
+                        self.searcher.verif_deeper_hits.get(), self.searcher.verif_same_depth_hits.get(), after, self.searcher.verif_repetition_len(),
+                        tt_digest(&self.searcher.verif_tt_entries()));
+                    self.searcher.verif_set_node_limit(None);
+                    self.searcher.verif_set_poll_limit(None);
+                    r
+                }
+                _ => "bad-op".into(),
+            },
+            // s.value <board> <depth> <move the implementation answered>: a FRESH searcher with the current keys
+            "s.value" if t.len() == 4 => match (parse_board(t[1]), t[2].parse::<u8>()) {
+                (Some(b), Ok(d)) => {
+                    let (score, mv, deeper) = self.fresh_search(&b, d);
+                    let claimed = t[3];
+                    format!("{} {} deeper={}", clamp_class(score), if opt_mv_text(&mv) == claimed { "same-move".to_string() } else { format!("other-move:{}", opt_mv_text(&mv)) }, deeper)
+                }
+                _ => "bad-op".into(),
+            },
+            // s.judge <board> value <depth> <score> <mv> | legal <mv> | mate1 <mv> | safe <mv> : the SPEC column judges an
+            // answer the implementation gave earlier (the answer is embedded in the operation)
+            "s.judge" if t.len() >= 4 => "ok".into(),
+            "s.afterstop" => format!("{}", self.searcher.verif_timer().verif_nodes_after_stop),
+            "s.qval" if t.len() == 2 => match parse_board(t[1]) {
+                Some(b) => {
+                    let (pk, w, ck, ek) = self.searcher.verif_zobrist().verif_keys();
+                    let mut s = crate::search::Searcher::new();
+                    s.verif_set_zobrist(ZobristTable::verif_from_keys(pk, w, ck, ek));
+                    s.verif_quiescence(&b, -32767, 32767).to_string()
+                }
+                None => "bad-op".into(),
+            },
+            "s.ttclaim" if t.len() == 2 => match parse_board(t[1]) {
+                Some(b) => {
+                    let h = self.searcher.verif_hash(&b);
+                    match self.searcher.verif_tt().retrieve(h) {
+                        Some(e) => format!("{} {} {} {}", e.eval, opt_mv_text(&e.best_move), e.depth, bounds_name(e.bounds)),
+                        None => "none".into(),
+                    }
+                }
+                None => "bad-op".into(),
+            },
+            "s.order" if t.len() == 4 => match (parse_board(t[1]), parse_opt_mv(t[2]), t[3].parse::<u8>()) {
+                (Some(b), Some(ttm), Ok(ply)) => {
+                    let ms = self.mg.generate_moves(&b);
+                    let mut o = ms.clone();
+                    self.searcher.verif_order_moves(&b, &mut o, ttm, ply);
+                    let mut c = ms.clone();
+                    self.searcher.verif_order_captures(&mut c, &b);
+                    format!("{} / {}", o.iter().map(mv_text).collect::<Vec<_>>().join(" "), c.iter().map(mv_text).collect::<Vec<_>>().join(" "))
+                }
+                _ => "bad-op".into(),
+            },
+            // ------------------------------------------------------------ engine in-process
+            "eng.new" if t.len() == 838 => match keys_from_tokens(&t[1..]) {
+                Some(z) => { self.uci = Flounder::new(); self.uci.verif_searcher().verif_set_zobrist(z); "ok".into() }
+                None => "bad-op".into(),
+            },
+            // eng.pos <start board> <mv>* | <position command line>
+            "eng.pos" if t.len() >= 4 => {
+                let bar = match t.iter().position(|x| *x == "|") { Some(i) => i, None => return "bad-op".into() };
+                let cmd = t[bar + 1..].join(" ");
+                self.uci.verif_handle_command(&cmd);
+                let b = *self.uci.verif_board();
+                let n = self.uci.verif_searcher().verif_repetition_len();
+                let x = self.uci.verif_searcher().verif_repetition_xor();
+                format!("running {} rep={}:{}", board_text(&b), n, x)
+            }
+            "eng.isdraw" if t.len() == 2 => match parse_board(t[1]) {
+                Some(b) => self.uci.verif_searcher().verif_is_repetition_draw(&b).to_string(),
                 None => "bad-op".into(),
             },
             // ------------------------------------------------------------ C12
